@@ -48,6 +48,30 @@ func oneAdvertiser(rng *verifsim.RNG) *Plan {
 	}
 }
 
+// maybeReinit adds link-down events on an interface with probability prob: the
+// connection is torn down and re-established (a new dial generation) while the
+// scenario goes on. State carried from one generation into the next is a
+// classic hiding place.
+func maybeReinit(rng *verifsim.RNG, p *Plan, ifn string, from, to int64, prob float64) bool {
+	if !rng.Bool(prob) || to <= from {
+		return false
+	}
+	for i, k := 0, rng.Range(1, 2); i < k; i++ {
+		at := from + rng.Int63n(to-from) + jitter(rng)
+		if rng.Bool(0.4) {
+			// the interface was re-created: it comes back under a new index
+			a := Action{At: at - 50, Kind: "reindex", If: ifn, N: 100 + rng.Intn(800)}
+			if rng.Bool(0.5) {
+				a.Addrs = []AddrW{{CIDR: "2001:db8:ffff::1/64"}, {CIDR: "fd00:ffff::1/64", Forever: true}}
+			}
+			p.Actions = append(p.Actions, a)
+		}
+		p.Actions = append(p.Actions, Action{At: at, Kind: "link", If: ifn, Oper: "down"})
+	}
+	p.Class += "+reinit"
+	return true
+}
+
 func dur(ns int64) string { return time.Duration(ns).String() }
 
 // jitter returns an odd sub-microsecond offset so that driver actions do not
